@@ -67,3 +67,102 @@ Proof.
   intros E. pose proof (prover_run_map sha256 path_eqb wit_root wit_ops) as M.
   assert (C : Some false = Some true) by congruence. discriminate C.
 Qed.
+
+(** *** interleavings
+    CreateProof does two things: it builds the pruned tree and attaches it to
+    a Merkle-proof header cell ([Attach]), then it serialises that cell
+    ([Emit]).  Call [t] works on prune set [ops t].  In the real code the
+    header is allocated by the call ([local t]); in the design of seeded
+    mutation C18-r3m2 it is one cell owned by the prover ([shared]).  A
+    schedule is any sequence of these steps of any number of concurrent calls. *)
+Inductive ev := Attach (t : nat) | Emit (t : nat).
+
+Section Interleave.
+Variable H : bytes -> bytes.
+Variable root : cell.
+Variable ops : nat -> list (list nat).          (* the prune set of call t *)
+
+Definition proof_of (t : nat) : res cell := create_proof H (in_paths (ops t)) root.
+
+Record cstate := mkC { local : nat -> option (res cell); shared : option (res cell) }.
+
+Definition upd (f : nat -> option (res cell)) (t : nat) (v : res cell) : nat -> option (res cell) :=
+  fun u => if Nat.eqb u t then Some v else f u.
+
+(* one step; an [Emit] outputs (call, what it serialises) *)
+Definition cstep (share : bool) (s : cstate) (e : ev) : cstate * list (nat * option (res cell)) :=
+  match e with
+  | Attach t => (mkC (upd (local s) t (proof_of t)) (Some (proof_of t)), [])
+  | Emit t => (s, [(t, if share then shared s else local s t)])
+  end.
+
+Fixpoint crun (share : bool) (s : cstate) (sched : list ev) : list (nat * option (res cell)) :=
+  match sched with
+  | [] => []
+  | e :: rest => let '(s', out) := cstep share s e in out ++ crun share s' rest
+  end.
+
+(* real design: whatever the schedule, a call emits its own proof (or nothing
+   if it has not attached yet) *)
+Lemma crun_local_inv : forall sched s,
+  (forall t r, local s t = Some r -> r = proof_of t) ->
+  forall t r, In (t, Some r) (crun false s sched) -> r = proof_of t.
+Proof.
+  induction sched as [|e rest IH]; intros s Hs t r Hin; [destruct Hin|].
+  cbn [crun] in Hin. destruct e as [u|u]; cbn [cstep app] in Hin.
+  - refine (IH _ _ t r Hin). intros t' r'. cbn [local]. unfold upd. intros E.
+    destruct (Nat.eqb t' u) eqn:Eu.
+    + apply Nat.eqb_eq in Eu. subst u. injection E as <-. reflexivity.
+    + exact (Hs t' r' E).
+  - destruct Hin as [E|Hin].
+    + injection E as <- E2. exact (Hs u r E2).
+    + exact (IH s Hs t r Hin).
+Qed.
+
+Theorem interleaving_independent sched t r :
+  In (t, Some r) (crun false (mkC (fun _ => None) None) sched) -> r = proof_of t.
+Proof. apply crun_local_inv. intros t' r' E. discriminate E. Qed.
+End Interleave.
+
+(** the shared header: two calls, schedule Attach 0; Attach 1; Emit 0 — call 0
+    (which prunes only the right child) returns call 1's proof, in which the
+    LEFT child is pruned and the right one is not.  Sequential schedules
+    (Attach t; Emit t; ...) are right, which is why no history shows it. *)
+Definition wit_calls (t : nat) : list (list nat) :=
+  match t with O => [[1%nat]] | _ => [[0%nat]] end.
+
+Definition emitted_pruned_at (o : list (nat * option (res cell))) (k : nat) (path : list nat) : option bool :=
+  match nth_error o k with
+  | Some (_, Some r) => pruned_at (Some (Some r)) path
+  | _ => None
+  end.
+
+Theorem shared_header_refuted :
+  let racy := [Attach 0; Attach 1; Emit 0; Emit 1] in
+  let seq := [Attach 0; Emit 0; Attach 1; Emit 1] in
+  let s0 := mkC (fun _ => None) None in
+  (* real design, racy schedule: call 0's proof has the right child pruned, the left one kept *)
+  emitted_pruned_at (crun sha256 wit_root wit_calls false s0 racy) 0 [1%nat] = Some true /\
+  emitted_pruned_at (crun sha256 wit_root wit_calls false s0 racy) 0 [0%nat] = Some false /\
+  (* shared header, racy schedule: call 0 emits a proof with the right child kept, the left pruned *)
+  emitted_pruned_at (crun sha256 wit_root wit_calls true s0 racy) 0 [1%nat] = Some false /\
+  emitted_pruned_at (crun sha256 wit_root wit_calls true s0 racy) 0 [0%nat] = Some true /\
+  (* shared header, sequential schedule: right *)
+  crun sha256 wit_root wit_calls true s0 seq = crun sha256 wit_root wit_calls false s0 seq /\
+  ~ (forall t r, In (t, Some r) (crun sha256 wit_root wit_calls true s0 racy) ->
+                 r = proof_of sha256 wit_root wit_calls t).
+Proof.
+  cbn zeta.
+  assert (A : emitted_pruned_at (crun sha256 wit_root wit_calls true (mkC (fun _ => None) None)
+                [Attach 0; Attach 1; Emit 0; Emit 1]) 0 [1%nat] = Some false) by (vm_compute; reflexivity).
+  assert (B : pruned_at (Some (Some (proof_of sha256 wit_root wit_calls 0))) [1%nat] = Some true)
+    by (vm_compute; reflexivity).
+  split; [vm_compute; reflexivity|]. split; [vm_compute; reflexivity|].
+  split; [exact A|]. split; [vm_compute; reflexivity|]. split; [reflexivity|].
+  intros Hall.
+  specialize (Hall 0%nat (proof_of sha256 wit_root wit_calls 1)).
+  assert (E : proof_of sha256 wit_root wit_calls 1 = proof_of sha256 wit_root wit_calls 0).
+  { apply Hall. cbn [crun cstep app shared]. left. reflexivity. }
+  unfold emitted_pruned_at in A. cbn [crun cstep app shared nth_error] in A.
+  rewrite E in A. congruence.
+Qed.
